@@ -173,6 +173,11 @@ func (vm *VM) convertPanic(msg any) error {
 					return vm.newPanic(runtimeError(s))
 				}
 			}
+			// A value method of a native type has been called using a nil
+			// pointer as receiver.
+			if s := msg.Error(); strings.HasPrefix(s, "value method ") && strings.Contains(s, " called using nil *") {
+				return vm.newPanic(runtimeError(s))
+			}
 			// TODO: check env.
 			break
 		default:
